@@ -318,6 +318,24 @@ func execute(c Case) (res result) {
 		return res
 	}
 	res.val = v
+	// A list computed from a list is a new list: writing to it leaves the operand alone (slices, +, *, list(), sorted, reversed).
+	if ol, ok := out.(*starlark.List); ok && !isMutator(c) {
+		switch c.Op {
+		case "slice", "add", "mul", "rmul", "f.list", "f.sorted", "f.reversed":
+			if rl, ok := recv.(*starlark.List); ok && rl != ol && rl.Len() > 0 {
+				before, _ := fromStar(rl)
+				if ol.Len() > 0 {
+					ol.SetIndex(0, starlark.String("written-through-the-result"))
+				}
+				ol.Append(starlark.String("appended-to-the-result"))
+				if after, _ := fromStar(rl); !eqV(before, after) {
+					res.panicked = fmt.Sprintf("the result shares storage with its list operand: writing to the result changed the operand from %s to %s", show(before), show(after))
+				}
+			} else if ok && rl == ol {
+				res.panicked = "the result is the operand itself, not a new list"
+			}
+		}
+	}
 	return res
 }
 
